@@ -16,8 +16,8 @@ open Trion.Lex (LTok LOk ltext ltoks Spell Exact)
 
 /-- C09.T1 `parse_text`  **Every token spacing.** For every list of well-formed statements `evs` and EVERY
 layout of their rendered token values, tokenizing the text and parsing the result yields exactly those statements
-in order, without error; and each element carries the specified position (`Pos.of`) of the byte offset at which
-the spelling of its first token starts. -/
+in order, without error. (The last conjunct is a WEAK position statement, kept for compatibility: it only says that
+each element sits at some offset where a `.`/identifier spelling starts; the exact statement is `parse_text_exact`.) -/
 theorem parse_text (evs : List ElemVal) (hwf : ∀ ev ∈ evs, ev.wf) (L : List LTok) (trail : Bytes) (hL : LOk L trail)
     (hv : L.map (·.tok) = (evs.map Render.elemVal).flatten) :
     ∃ out els, Lex.tokens (ltext L trail) = .ok out ∧ all out = .done els none ∧ els.map (·.val) = evs ∧
@@ -36,6 +36,23 @@ theorem parse_text (evs : List ElemVal) (hwf : ∀ ev ∈ evs, ev.wf) (L : List 
   obtain ⟨t, ht, hpos⟩ := List.mem_map.mp this
   obtain ⟨hkind, o, e, h5, h6, h7, h8⟩ := h4 t ht
   exact ⟨o, e, h5, h6, ⟨t.val, h7, hkind⟩, by rw [← hpos]; exact h8⟩
+
+/-- C09.T1' `parse_text_exact`  **Every token spacing, exact positions.** As `parse_text`, and the elements are
+located exactly (`Parse.StmtsAt`, `Lemmas/ParseSegs.lean`; see `Lex.stmt_pos_segments`): the run cuts the tokens into
+consecutive segments that cover ALL tokens of the layout (leftover `[]`), element `i` is read from segment `i`, whose
+first token — the `.` or the name / label identifier — is spelled by `text[oᵢ, eᵢ)` after separator text, and element
+`i` carries `Pos.of (text.take oᵢ)`; this segmentation is unique (`Lex.stmt_pos_determined`). -/
+theorem parse_text_exact (evs : List ElemVal) (hwf : ∀ ev ∈ evs, ev.wf) (L : List LTok) (trail : Bytes) (hL : LOk L trail)
+    (hv : L.map (·.tok) = (evs.map Render.elemVal).flatten) :
+    ∃ out els, Lex.tokens (ltext L trail) = .ok out ∧ all out = .done els none ∧ els.map (·.val) = evs ∧
+      StmtsAt (ltext L trail) out 0 out.toks els [] := by
+  have hlex := Lex.layout_tokens L trail hL
+  have hvals : (ltoks [] L).map (·.val) = (evs.map Render.elemVal).flatten := by rw [Lex.ltoks_vals, hv]
+  obtain ⟨els, hall, hels⟩ := all_of_vals evs hwf (ltoks [] L) hvals (Pos.of (ltext L trail)).1 (Pos.of (ltext L trail)).2
+  have hex : Exact (ltext L trail) 0 (ltoks [] L) := by simpa using Lex.layout_exact L trail hL []
+  obtain ⟨left, hs, hl⟩ := Lex.stmt_pos_segments _ _ hex els none hall
+  rw [hl rfl] at hs
+  exact ⟨_, els, hlex, hall, hels, hs⟩
 
 /-- C09.T2 `parens_text`  **Redundant parentheses, at text level.** For every way `p` of adding parentheses to an
 expression and every layout of `Render.parg 0 p` followed by a token that ends an expression and anything else,
